@@ -163,9 +163,16 @@ func (collection *linkCollectionImpl) EntityDeleted(tx *bbolt.Tx, id string) err
 	fieldBucket := collection.getFieldBucketForStringId(tx, id)
 
 	if !fieldBucket.HasError() {
+		// Collect the keys first: in a collection that links a store with itself an entity may be
+		// linked to itself, RemoveLink then deletes from the bucket being iterated, and a bbolt
+		// cursor does not survive deletes in its own bucket (it skips the following key).
+		var keys [][]byte
 		cursor := fieldBucket.Cursor()
 		for val, _ := cursor.First(); val != nil; val, _ = cursor.Next() {
 			_, key := GetTypeAndValue(val)
+			keys = append(keys, clone(key))
+		}
+		for _, key := range keys {
 			// We don't need to delete the local entry b/c the parent bucket is getting deleted
 			if err := collection.otherField.RemoveLink(tx, key, bId); err != nil {
 				return err
